@@ -13,7 +13,7 @@ import numpy as np
 import z3
 
 from ..arrays import FArr
-from ..core import Ctx, SInt, explore, rebind
+from ..core import NumpyFallback, Ctx, SInt, explore, rebind
 from ..nbsym import Interp, NArr, Sym, capture, from_narr, sym_array, to_narr
 
 ORDERS = ("big", "little")
@@ -152,7 +152,7 @@ class KRec:
         return k
 
 
-class NPw:
+class NPw(metaclass=NumpyFallback):
     uint8 = np.uint8
 
     @staticmethod
